@@ -170,7 +170,7 @@ def direct_call(b, op):
     return None
 
 
-def rule_c(ctx):
+def rule_c(ctx, rid="C07-C"):
     F = ctx.facts
     drn, arms, sites = _append_sites(F)
     # Ul: " ".repeat(n): n is the same local that is subtracted
@@ -181,7 +181,7 @@ def rule_c(ctx):
         for body, blocks in bodies:
             wm += [(body, t) for bb, t in calls_in(body, blocks, lambda cd, t: ends(cd, "SubRenderer::<D>::width_minus"))]
         if not wm:
-            ctx.violation("C07-C", "%s:width_minus" % vn, drn.term(tb)["span"], drn.id, "no width_minus call")
+            ctx.violation(rid, "%s:width_minus" % vn, drn.term(tb)["span"], drn.id, "no width_minus call")
             continue
         sub_name = norm(wm[0][0].expr(wm[0][1]["args"][1]))
         if vn == "Ul":
@@ -189,14 +189,14 @@ def rule_c(ctx):
             for body, blocks in bodies:
                 reps += [(body, t) for bb, t in calls_in(body, blocks, lambda cd, t: callee_method(t) == "repeat" and "str" in (callee_def(t) or ""))]
             okc = len(reps) == 1 and norm(reps[0][0].expr(reps[0][1]["args"][1])) == sub_name
-            ctx.check(okc, "C07-C", "Ul:indent-width=subtracted-width", reps[0][1]["span"] if reps else drn.span, drn.id,
+            ctx.check(okc, rid, "Ul:indent-width=subtracted-width", reps[0][1]["span"] if reps else drn.span, drn.id,
                       "indent of %s columns vs width_minus(%s)" % ([norm(r[0].expr(r[1]["args"][1])) for r in reps], sub_name))
         else:
             # Ol: prefixn = format!("{: <w$}", "", w = prefix_width); marker padded by prefix_width − width(marker)
             fu = drn.calls(lambda cd, t: ends(cd, "Argument::<'_>::from_usize") and t["args"] and True)
             fu = [(bb, t) for bb, t in fu if bb in region]
             okc = any(("local", sub_name) in drn.atoms(t["args"][0]) for bb, t in fu)
-            ctx.check(okc, "C07-C", "Ol:indent-width=subtracted-width", drn.term(tb)["span"], drn.id,
+            ctx.check(okc, rid, "Ol:indent-width=subtracted-width", drn.term(tb)["span"], drn.id,
                       "blank prefix padded to %s, width_minus(%s)" % ([norm(drn.expr(t["args"][0])) for bb, t in fu], sub_name))
             pads = []
             for body, blocks in bodies:
@@ -208,7 +208,7 @@ def rule_c(ctx):
                 if a0 == sub_name and has_call(a1, "UnicodeWidthStr>::width", "UnicodeWidthStr::width") and \
                         any(a[0] == "call" and a[1] and a[1].endswith("::ordered_item_prefix") for a in a1):
                     okp = True
-            ctx.check(okp, "C07-C", "Ol:marker-padded-to-subtracted-width", drn.term(tb)["span"], drn.id, "")
+            ctx.check(okp, rid, "Ol:marker-padded-to-subtracted-width", drn.term(tb)["span"], drn.id, "")
 
 
 def rule_d(ctx):
